@@ -186,3 +186,32 @@ def cpu_budget(seconds, wall_factor=30):
         signal.setitimer(signal.ITIMER_REAL, 0)
         signal.signal(signal.SIGVTALRM, old_v)
         signal.signal(signal.SIGALRM, old_r)
+
+
+def regular_subbatches(rng, cuts, max_batches=4):
+    """Index arrays selecting *regular* sub-batches of a (rows, k) cut array: the shapes a detector or a
+    vectorised fast path produces -- all rows with the same part sizes as a pivot row (a sliding window,
+    usually with unequal parts), all rows sharing the pivot's outer interval, all rows sharing its first
+    cut, and the pivot alone.  A row's value must not depend on the batch it is evaluated in."""
+    import numpy as np
+
+    cuts = np.asarray(cuts)
+    if cuts.ndim != 2 or len(cuts) == 0:
+        return []
+    d = np.diff(cuts, axis=1)
+    out = []
+    for _ in range(max_batches):
+        i = int(rng.integers(len(cuts)))
+        kind = int(rng.integers(4))
+        if kind == 0:
+            sel = np.flatnonzero((d == d[i]).all(axis=1))
+        elif kind == 1:
+            sel = np.flatnonzero((cuts[:, 0] == cuts[i, 0]) & (cuts[:, -1] == cuts[i, -1]))
+        elif kind == 2:
+            sel = np.flatnonzero(cuts[:, 0] == cuts[i, 0])
+        else:
+            sel = np.array([i])
+        if len(sel) > 40:
+            sel = np.sort(rng.choice(sel, size=40, replace=False))
+        out.append((("same-part-sizes", "same-outer-interval", "same-start", "single-row")[kind], sel))
+    return out
